@@ -10,9 +10,9 @@ def codes(s):
     return list(s if isinstance(s, (bytes, bytearray)) else s.encode())
 
 
-def free_port():
-    s = socket.socket(socket.AF_INET, socket.SOCK_DGRAM)
-    s.bind((HOST, 0))
+def free_port(host=HOST):
+    s = socket.socket(socket.AF_INET6 if ":" in host else socket.AF_INET, socket.SOCK_DGRAM)
+    s.bind((host, 0))
     p = s.getsockname()[1]
     s.close()
     return p
@@ -210,11 +210,12 @@ class Sandbox:
 class Server:
     """A tftpd child process in a sandbox."""
 
-    def __init__(self, sandbox, single=False, ro=False, ow=False, clean=True, dup=0, extra=()):
+    def __init__(self, sandbox, single=False, ro=False, ow=False, clean=True, dup=0, extra=(), host=HOST):
         self.sb = sandbox
+        self.host = host
         self.flags = {"single": single, "ro": ro, "ow": ow, "clean": clean, "shared": sandbox.shared, "dup": dup}
-        self.port = free_port()
-        args = [C.repo_bin("tftpd"), "-i", HOST, "-p", str(self.port)]
+        self.port = free_port(host)
+        args = [C.repo_bin("tftpd"), "-i", host, "-p", str(self.port)]
         if sandbox.shared:
             args += ["-d", sandbox.send]
         else:
@@ -235,14 +236,14 @@ class Server:
         env = dict(os.environ)
         env.pop("RUST_BACKTRACE", None)
         self.proc = subprocess.Popen(args, stdout=self.out, stderr=subprocess.STDOUT, env=env, cwd=sandbox.base)
-        # wait until it answers: an ACK from nowhere gets ERROR 4 from a live listener
+        # wait until it answers: a read request for a file that is not there gets ERROR 1
         deadline = time.time() + 10
-        s = socket.socket(socket.AF_INET, socket.SOCK_DGRAM)
+        s = socket.socket(socket.AF_INET6 if ":" in host else socket.AF_INET, socket.SOCK_DGRAM)
         s.settimeout(0.2)
         ok = False
         while time.time() < deadline and self.proc.poll() is None:
             try:
-                s.sendto(ack(0), (HOST, self.port))
+                s.sendto(SENTINEL, (host, self.port))
                 s.recvfrom(2048)
                 ok = True
                 break
@@ -278,6 +279,9 @@ class Server:
         return ev
 
 
+SENTINEL = rq(1, b"\x01no-such-file\x01")
+
+
 def recv_reply(sock, timeout):
     sock.settimeout(timeout)
     try:
@@ -290,8 +294,8 @@ def recv_reply(sock, timeout):
 
 
 def first_reply(server, reqbytes, grace, patient=False):
-    """Sends the request from a fresh endpoint A and a sentinel (a bare ACK, which a live listener
-    always answers with ERROR 4) from a second endpoint B right behind it.  The listener is one
+    """Sends the request from a fresh endpoint A and a sentinel (a read request for a file that does
+    not exist, which a live listener always answers with ERROR 1) from a second endpoint B right behind it.  The listener is one
     thread, so once B has its answer the listener has finished with the request: anything A
     still gets can only come from a worker thread, for which `grace` seconds are allowed.
     Returns (socket A, reply bytes or None, source address)."""
@@ -301,7 +305,7 @@ def first_reply(server, reqbytes, grace, patient=False):
     bsock = socket.socket(socket.AF_INET, socket.SOCK_DGRAM)
     bsock.bind((HOST, 0))
     a.sendto(reqbytes, (HOST, server.port))
-    bsock.sendto(ack(0), (HOST, server.port))
+    bsock.sendto(SENTINEL, (HOST, server.port))
     deadline = time.time() + (3.0 if patient else 1.0)
     sentinel_at = None
     reply = (None, None)
